@@ -1,7 +1,7 @@
 # -*- coding: utf-8 -*-
 
 import json
-from typing import Iterable, Optional, Union
+from typing import Iterable, List, Optional, Union
 
 from .._utils import classdispatch
 from . import ast as _ast
@@ -98,7 +98,19 @@ class ASTPrinter:
         return "$%s" % node.name.value
 
     def print_document(self, node: _ast.Document) -> str:
-        return _join(map(self, node.definitions), "\n\n") + "\n"
+        printed = []  # type: List[str]
+        for definition in node.definitions:
+            text = self(definition)
+            # The query shorthand would be read as the body of a preceding
+            # type definition or extension that has none.
+            if (
+                text.startswith("{")
+                and printed
+                and not printed[-1].endswith("}")
+            ):
+                text = "query " + text
+            printed.append(text)
+        return _join(printed, "\n\n") + "\n"
 
     def print_operation_definition(self, node: _ast.OperationDefinition) -> str:
         op = node.operation
